@@ -1,4 +1,5 @@
 import TextxVerif.Peg.Arp
+import TextxVerif.Peg.WsParam
 import TextxVerif.Tx.Gram
 /-!
 # Mirror of the grammar compiler (`textx/lang.py`, `TextXVisitor`; `model.py:get_model_parser`)
@@ -243,14 +244,11 @@ end
 
 /-! ## rule parameters -/
 
-/-- `visit_rule_params`: interpretation of the `ws` value -/
-def wsParam (raw : String) : List Char :=
-  let cs := raw.toList
-  if cs.contains '\\' then
-    let has (a b : Char) : Bool := (cs.zip cs.tail).any (fun p => p.1 == a && p.2 == b)
-    (if has '\\' 'n' then ['\n'] else []) ++ (if has '\\' 'r' then ['\r'] else []) ++
-    (if has '\\' 't' then ['\t'] else []) ++ (if cs.contains ' ' then [' '] else [])
-  else cs
+/-- `visit_rule_params`: interpretation of the `ws` value.  The code is mirrored once, in `Peg/WsParam.lean`
+(`Peg.wsParam`, /repo main after "fix: a ws rule modifier written with an escape sequence no longer drops the
+characters given literally": the escapes `\\n \\r \\t` and the blank first, then every other character of the
+value as it is written); this is that function on the grammar's string. -/
+def wsParam (raw : String) : List Char := Peg.wsParam raw.toList
 
 def Rule.hasParams (r : Rule) : Bool := r.skipws.isSome || r.ws.isSome
 
